@@ -3,7 +3,7 @@ from __future__ import annotations
 
 import ast
 
-from ..astq import Canon, U, kwarg, raised_class_name, statements, store_targets
+from ..astq import Canon, U, kwarg, raised_class_name, statements, store_targets, unify
 from ..cfg import CFG, header_walk
 from ..index import AnalysisError, root_name, walk_no_nested
 from ..selftest import V
@@ -195,47 +195,71 @@ def r3_ordering(ctx):
     ctx.check(len(clean_calls) == 3 and bool(loop) and all(rcfg.dominates(c, loop[0]) for c in clean_calls), "C14.R3", read, read.node, "index, numeric and layout cleaning all precede the loading loop",
               "a cleaning step is skipped on some path before individuals are loaded", construct="cleaning before loading")
     ad = ix.func(f"{PKG}.individual_data", "IndividualData.add_observations", "C14.R3")
-    ca = Canon(ad.node)
-    tp = [t for t in ca.assigned("$0.timepoints") if "concatenate" in t or "insert" in t]
-    ob = [t for t in ca.assigned("$0.observations") if "concatenate" in t or "insert" in t]
-    ctx.form("C14.R3", ad, ad.node, tp[0] if tp else "", {"np.concatenate([$0.timepoints[:bisect($0.timepoints, %0)], [%0], $0.timepoints[bisect($0.timepoints, %0):]])"},
-             [("bisect", "searchsorted", "sort")], "ages inserted at the bisection index", "visits are appended without keeping the ages sorted", construct="sorted insertion of ages")
-    ctx.form("C14.R3", ad, ad.node, ob[0] if ob else "", {"np.concatenate([$0.observations[:bisect($0.timepoints, %0)], [%1], $0.observations[bisect($0.timepoints, %0):]])"},
-             [("bisect($0.timepoints", "searchsorted", "argsort")], "values inserted at the same index as their age", "values are not inserted at the index of their age: ages and values get misaligned",
-             construct="sorted insertion of values")
+    al = Canon(ad.node).lines(True, True)
+    ba = unify(al, ["for (zip($1, $2), (?t, ?o))", "?idx = bisect($0.timepoints, ?t)", "$0.timepoints = np.concatenate([$0.timepoints[:?idx], [?t], $0.timepoints[?idx:]])",
+                    "$0.observations = np.concatenate([$0.observations[:?idx], [?o], $0.observations[?idx:]])"])
+    as_ = " ".join(al)
+    if ba is not None:
+        ctx.check(ba["#1"] < ba["#2"], "C14.R3", ad, ad.node, "ages inserted at the bisection index (computed on the ages before insertion)", "the insertion index is computed after the age was inserted", construct="sorted insertion of ages")
+        ctx.ok("C14.R3", ad, ad.node, "values inserted at the same index as their age", construct="sorted insertion of values")
+    elif not any(t in as_ for t in ("bisect", "searchsorted", "sort")):
+        ctx.violation("C14.R3", ad, ad.node, "visits are appended without keeping the ages sorted", construct="sorted insertion of ages")
+    elif not any(t in as_ for t in ("bisect($0.timepoints", "searchsorted", "argsort")):
+        ctx.violation("C14.R3", ad, ad.node, "values are not inserted at the index of their age: ages and values get misaligned", construct="sorted insertion of values")
+    else:
+        idx = unify(al, ["?idx = bisect($0.timepoints, ?t)"])
+        mis = idx is not None and sum(1 for ln in al if ("$0.timepoints = " in ln or "$0.observations = " in ln) and "concatenate" in ln and idx["idx"] in ln) < 2
+        if mis:
+            ctx.violation("C14.R3", ad, ad.node, "ages and values are not both inserted at the bisection index of the age: ages and values get misaligned", construct="sorted insertion of values")
+        else:
+            ctx.unknown("C14.R3", ad, ad.node, "the sorted insertion is neither the confirmed form nor lacks an essential part: cannot decide statically", construct="sorted insertion of ages")
     acfg = CFG(ad.node)
     dup = any(isinstance(acfg.stmt[h], ast.If) and " in self.timepoints" in U(acfg.stmt[h].test) and lab for r in acfg.nodes(lambda s: isinstance(s, ast.Raise)) for h, lab in acfg.if_guards(r))
     ctx.check(dup, "C14.R3", ad, ad.node, "an existing age is refused", "adding an already present age is no longer refused", construct="duplicate age refused")
     ds = f"{PKG}.dataset"
     cv = ix.func(ds, "Dataset._construct_values", "C14.R3")
     cc = Canon(cv.node)
-    Z = "torch.zeros(($0.n_individuals, $0.n_visits_max, $0.dimension))"
-    mk = cc.assigned("$0.mask")
-    ctx.form("C14.R3", cv, cv.node, mk[0] if mk else "", {f"torch.zeros_like({Z}) * (~torch.isnan({Z})).float()"}, ["isnan", ("zeros_like", "padding")],
-             "mask = padding mask * not-NaN", "the dataset mask no longer combines the padding mask with the not-NaN mask: missing (or padded) entries count as observed", construct="mask construction")
-    lines = cc.lines(True)
-    stores = {}
-    for st in sorted(statements(cv.node), key=lambda x: x.lineno):
-        if isinstance(st, ast.Assign) and isinstance(st.targets[0], ast.Subscript):
-            stores[cc.text(st.targets[0])] = cc.text(st.value)
-    ok = (f"for (enumerate($0.n_visits_per_individual), (%0, %1))" in lines
-          and f"{Z}[%0, 0:%1, :] = torch.tensor(np.array($1[%0].observations), dtype=torch.float32)" in lines and f"torch.zeros_like({Z})[%0, 0:%1, :] = 1.0" in lines)
-    ctx.anchor(ok, "C14.R3", cv, cv.node, "values and padding mask filled on the same rows [i, 0:nb_vis, :]", "per-individual fill of values / padding mask", construct="aligned fill")
-    ctx.check(stores.get(f"{Z}[torch.isnan({Z})]") == "0.0", "C14.R3", cv, cv.node, "NaNs zero-filled in the value tensor", "NaNs are no longer zero-filled in the value tensor (a NaN at a masked position would propagate)",
-              construct="NaN zero-fill")
-    no = cc.assigned("$0.n_observations_per_ind_per_ft")
-    ctx.form("C14.R3", cv, cv.node, no[0] if no else "", {f"(torch.zeros_like({Z}) * (~torch.isnan({Z})).float()).sum(dim=1).int()"}, [("isnan", "mask")],
-             "observation counts derive from the mask", "observation counts no longer derive from the mask", construct="counts from mask")
+    L = cc.lines(False, True)
+    FILL = ["?v = torch.zeros(($0.n_individuals, $0.n_visits_max, $0.dimension))", "?pm = torch.zeros_like(?v)", "for (enumerate($0.n_visits_per_individual), (?i, ?n))",
+            "?iv = torch.tensor(np.array($1[?i].observations), dtype=torch.float32)", "?v[?i, 0:?n, :] = ?iv", "?pm[?i, 0:?n, :] = 1.0", "$0.values = ?v"]
+    FILL2 = FILL[:3] + ["?v[?i, 0:?n, :] = torch.tensor(np.array($1[?i].observations), dtype=torch.float32)", "?pm[?i, 0:?n, :] = 1.0", "$0.values = ?v"]
+    b = unify(L, FILL) or unify(L, FILL2)
+    has_tokens = any("isnan" in ln for ln in L) and any(".mask = " in ln for ln in L)
+    if b is None:
+        ctx.anchor(False, "C14.R3", cv, cv.node, "values and padding mask filled on the same rows [i, 0:nb_vis, :]", "per-individual fill of values / padding mask", construct="aligned fill")
+    else:
+        ctx.ok("C14.R3", cv, cv.node, "values and padding mask filled on the same rows [i, 0:nb_vis, :]", construct="aligned fill")
+        vb = {k: b[k] for k in ("v", "pm")}
+        filled = (unify(L, ["?pm[?i, 0:?n, :] = 1.0"], {k: b[k] for k in ("pm", "i", "n")}) or {"#0": 10 ** 6})["#0"]
+        m = unify(L, ["?nn = (~torch.isnan(?v)).float()", "?m = ?pm * ?nn", "$0.mask = ?m"], vb) or unify(L, ["?m = ?pm * (~torch.isnan(?v)).float()", "$0.mask = ?m"], vb) \
+            or unify(L, ["?nn = (~torch.isnan(?v)).float()", "?m = ?nn * ?pm", "$0.mask = ?m"], vb)
+        z = unify(L, ["?v[torch.isnan(?v)] = 0.0"], vb) or unify(L, ["?v = torch.nan_to_num(?v...)"], vb)
+        if m is None:
+            from ..astq import Inliner
+            full = [Inliner(cv.node).text(st.value) for st in statements(cv.node) if isinstance(st, ast.Assign) and U(st.targets[0]) == "self.mask"]
+            if full and "isnan" in full[0] and ("zeros_like" in full[0] or "padding" in full[0]):
+                ctx.unknown("C14.R3", cv, cv.node, "the construction of the dataset mask is neither the confirmed form nor lacks an essential part: cannot decide statically", construct="mask construction")
+            else:
+                ctx.violation("C14.R3", cv, cv.node, "the dataset mask no longer combines the padding mask with the not-NaN mask: missing (or padded) entries count as observed", construct="mask construction")
+        else:
+            ctx.check(filled < m["#0"], "C14.R3", cv, cv.node, "mask = padding mask * not-NaN, computed after the per-individual fill",
+                      "the not-NaN mask is computed before the values are filled in: every entry counts as observed", construct="mask construction")
+            ctx.check(z is not None and m["#0"] < z["#0"], "C14.R3", cv, cv.node, "NaNs zero-filled in the value tensor, after the not-NaN mask was taken",
+                      "NaNs are no longer zero-filled in the value tensor (a NaN at a masked position would propagate), or are zero-filled before the mask is taken (missing entries count as observed)", construct="NaN zero-fill")
+            c = unify(L, ["$0.n_observations_per_ind_per_ft = ?m.sum(dim=1).int()"], {"m": m["m"]})
+            ctx.check(c is not None, "C14.R3", cv, cv.node, "observation counts derive from the mask", "observation counts no longer derive from the mask", construct="counts from mask")
     gv = ix.func(ds, "Dataset.get_values_patient", "C14.R3")
-    cg = Canon(gv.node)
-    st_ = {}
-    for st in statements(gv.node):
-        if isinstance(st, ast.Assign) and isinstance(st.targets[0], ast.Subscript):
-            st_[cg.text(st.targets[0])] = cg.text(st.value)
-    key = "%0[$1, :$0.n_visits_per_individual[$1], ...].clone().detach()[$0.mask[$1, :$0.n_visits_per_individual[$1], :] == 0, ...]"
-    txt = next((k + " <- " + v for k, v in st_.items() if "nan" in v), "")
-    ctx.form("C14.R3", gv, gv.node, txt, {key + " <- float('nan')"}, ["$0.mask", "nan", ("clone", "copy")], "NaN restored from the mask on a clone",
-             "get_values_patient no longer restores NaN from the mask on a copy (zero-filled values would be read back as observations, or the dataset modified)", construct="NaN restored from mask")
+    gl = Canon(gv.node).lines(True, True)
+    IDX = "$1, :$0.n_visits_per_individual[$1]"
+    ok = unify(gl, [f"?out = ?src[{IDX}, ...].clone().detach()", f"?out[$0.mask[{IDX}, :] == 0, ...] = float('nan')", "return ?out"]) is not None \
+        or unify(gl, [f"?out = ?src[{IDX}, ...].detach().clone()", f"?out[$0.mask[{IDX}, :] == 0, ...] = float('nan')", "return ?out"]) is not None
+    gs = " ".join(gl)
+    if ok:
+        ctx.ok("C14.R3", gv, gv.node, "NaN restored from the mask on a clone", construct="NaN restored from mask")
+    elif "$0.mask" in gs and "nan" in gs and ("clone" in gs or "copy" in gs):
+        ctx.unknown("C14.R3", gv, gv.node, "get_values_patient is neither the confirmed form nor lacks an essential part: cannot decide statically", construct="NaN restored from mask")
+    else:
+        ctx.violation("C14.R3", gv, gv.node, "get_values_patient no longer restores NaN from the mask on a copy (zero-filled values would be read back as observations, or the dataset modified)", construct="NaN restored from mask")
     tp_ = ix.func(ds, "Dataset.to_pandas", "C14.R3")
     src = U(tp_.node)
     ok = ".get_values_patient(" in src and "sort_index()" in src
